@@ -395,6 +395,67 @@ def context_split_section(ctx):
             ctx.spec_failure(case, "the generated kerning (T, o) = -30 is not applied under latn")
 
 
+def context_level(ctx):
+    """BaseFeatureWriter._contextAt (the statements that re-create the script / language / lookupflag context in effect after a
+    list of statements) against Fea/Context.v on random statement lists"""
+    from fontTools.feaLib import ast
+    from ufo2ft.featureWriters import BaseFeatureWriter
+    rng = ctx.subrng("context")
+    SCRIPTS, LANGS, FLAGS = ["latn", "grek", "DFLT"], ["dflt", "TRK ", "NLD "], [0, 8, 1, 9]
+
+    def mk(stmts):
+        out = []
+        for kind, v in stmts:
+            if kind == "script":
+                out.append(ast.ScriptStatement(SCRIPTS[v]))
+            elif kind == "language":
+                out.append(ast.LanguageStatement(LANGS[v]))
+            elif kind == "flag":
+                out.append(ast.LookupFlagStatement(FLAGS[v]))
+            else:
+                out.append(ast.Comment("# rule %d" % v))
+        return out
+
+    def g_stmts(stmts):
+        return G.lst(["(%s %s)" % ({"script": "SScript", "language": "SLanguage", "flag": "SFlag", "rule": "SRule"}[k], G.z(v)) for k, v in stmts], "cstmt")
+
+    def back(sts):
+        out = []
+        for st in sts:
+            if isinstance(st, ast.ScriptStatement):
+                out.append(("script", SCRIPTS.index(st.script)))
+            elif isinstance(st, ast.LanguageStatement):
+                out.append(("language", LANGS.index(st.language)))
+            elif isinstance(st, ast.LookupFlagStatement):
+                out.append(("flag", FLAGS.index(st.value)))
+            else:
+                out.append(("rule", -1))
+        return out
+    cases, meta = [], []
+    for i in range(ctx.budget(200, 1500)):
+        n = rng.randint(0, 8)
+        stmts = []
+        for k in range(n):
+            kind = rng.choice(["script", "language", "flag", "rule", "rule"])
+            stmts.append((kind, rng.randrange(3) if kind in ("script", "language") else rng.randrange(4) if kind == "flag" else 100 + k))
+        try:
+            got = back(BaseFeatureWriter._contextAt(mk(stmts)))
+        except Exception as e:
+            ctx.spec_failure({"statements": stmts}, "_contextAt raised %s: %s" % (type(e).__name__, e))
+            continue
+        ctx.count(); ctx.klass("context: %d statements" % n)
+        if any(k != "rule" for k, _ in stmts):
+            ctx.nontriv(("ctx", i, ctx.scale))
+        cases.append(G.tup(g_stmts(stmts), g_stmts(got)))
+        meta.append({"statements": stmts, "_contextAt": got})
+    vals = ctx.coq_eval("From U2F Require Import Base.Prelude Fea.Context.",
+                        "fun c : (list cstmt * list cstmt) => if list_eqb cstmt_eqb (context_at (fst c)) (snd c) then 3 else 2",
+                        cases, chunk=150, tag="Context")
+    for v, case in zip(vals, meta):
+        if v is not None and v != 3:
+            ctx.corr_mismatch(case, "Gallina context_at (Fea/Context.v) differs from BaseFeatureWriter._contextAt")
+
+
 def handwritten_features_section(ctx):
     """for EVERY feature the default writers can generate (kern, mark, mkmk, curs) on a font that gives each of them work: a
     hand-written block of that feature without the marker (or with a mis-cased one) stays the only block of that feature and
@@ -678,6 +739,7 @@ def compile_level(ctx):
     tables_level(ctx)
     handwritten_features_section(ctx)
     context_split_section(ctx)
+    context_level(ctx)
     # GSUB writers run first
     from ufo2ft.featureCompiler import FeatureCompiler
     from ufo2ft.featureWriters import KernFeatureWriter, MarkFeatureWriter, BaseFeatureWriter
